@@ -4,6 +4,8 @@
    (the callers use 8->5 with padding and 5->8 strict). *)
 From BU Require Import Lib.Bytes Lib.PolyMod Gen.Xbchutil.
 
+Definition lenN {A} (l : list A) : N := N.of_nat (length l).   (* len(x) as a number *)
+
 Definition CB := lit lits_convertBits.
 Definition w64 (x : N) : N := x mod 18446744073709551616.
 
